@@ -158,13 +158,12 @@ Qed.
 
 Lemma resume_suite_spec c h el rc4 s :
   resume_suite c h el rc4 = Some s ->
-  exists sv nc, h_ticket h = GoodTicket sv s nc /\ c_tickets_disabled c = false /\
+  exists sv nc, session_of c h = Some (sv, s, nc) /\
     sv <= h_vers h /\ mutual_version c sv = Some sv /\ In s (h_suites h) /\
     acceptable s (cfg_suites c) sv el (c_ecdsa c) (chacha_ok c) rc4.
 Proof.
   unfold resume_suite. intros H.
-  destruct (c_tickets_disabled c) eqn:Etd; [discriminate|].
-  destruct (h_ticket h) as [| |sv ss nc] eqn:Etk; try discriminate.
+  destruct (session_of c h) as [[[sv ss] nc]|] eqn:Es; [|discriminate].
   destruct (h_vers h <? sv) eqn:E1; [discriminate|]. apply Z.ltb_ge in E1.
   destruct (mutual_version c sv) as [v'|] eqn:E2; [|discriminate].
   destruct (v' =? sv) eqn:E3; simpl in H; [|discriminate]. apply Z.eqb_eq in E3. subst v'.
@@ -204,7 +203,7 @@ Qed.
 
 (* ---------- the four clauses over negotiate ---------- *)
 Lemma negotiate_done_inv c h r v s a n p :
-  negotiate c h = Done r v s a n p ->
+  negotiate1 c h = Done r v s a n p ->
   exists v0,
     mutual_version c (h_vers h) = Some v0 /\ check_version_grade v0 (grade_of c) = Some v /\
     scsv_fallback c h = false /\
@@ -215,7 +214,7 @@ Lemma negotiate_done_inv c h r v s a n p :
     ((r = true /\ resume_suite c h (sc && sp) rc4 = Some s) \/
      (r = false /\ select_suite c h v sc sp rc4 = Some s)).
 Proof.
-  unfold negotiate. intros H.
+  unfold negotiate1. intros H.
   destruct (mutual_version c (h_vers h)) as [v0|] eqn:E1; [|discriminate].
   destruct (check_version_grade v0 (grade_of c)) as [vers|] eqn:E2; [|discriminate].
   destruct (negb (mem compression_none (h_comp h))); [discriminate|].
@@ -228,7 +227,7 @@ Qed.
 
 Theorem version_in_range c h r v s a n p :
   min_version c <= max_version c ->
-  negotiate c h = Done r v s a n p ->
+  negotiate1 c h = Done r v s a n p ->
   min_version c <= v /\ v <= max_version c /\ v <= h_vers h /\
   (grade_of c = grade_a -> version_tls10 <= v) /\ (grade_of c = grade_aplus -> version_tls12 <= v).
 Proof.
@@ -269,7 +268,7 @@ Qed.
 
 Theorem suite_mutual c h r v s a n p :
   min_version c <= max_version c ->
-  negotiate c h = Done r v s a n p -> spec_suite_ok c h v s = true.
+  negotiate1 c h = Done r v s a n p -> spec_suite_ok c h v s = true.
 Proof.
   intros Hr H. apply negotiate_done_inv in H.
   destruct H as [v0 [Hm [Hg [_ [_ [_ [_ Hs]]]]]]].
@@ -278,7 +277,7 @@ Proof.
   unfold spec_suite_ok.
   destruct Hs as [[_ Hres]|[_ Hsel]].
   - apply resume_suite_spec in Hres.
-    destruct Hres as [sv [nc [_ [_ [Hle [Hmv [Hin [Hc [fl [Hf Hu]]]]]]]]]].
+    destruct Hres as [sv [nc [_ [Hle [Hmv [Hin [Hc [fl [Hf Hu]]]]]]]]].
     assert (Hsv : sv <= v0).
     { unfold mutual_version in Hm, Hmv.
       destruct (h_vers h <? min_version c); [discriminate|].
@@ -295,7 +294,7 @@ Qed.
 
 (* ALPN: unless validateHttp2Accepted rewrote h2 to http/1.1, the answer is in both lists *)
 Theorem alpn_mutual_partial c h r v s a n p :
-  negotiate c h = Done r v s a n p -> a <> [] ->
+  negotiate1 c h = Done r v s a n p -> a <> [] ->
   a = fst (fst (app_proto c h)) ->          (* i.e. validateHttp2Accepted did not rewrite it *)
   In a (h_alpn h) /\ In a (server_protos c).
 Proof.
@@ -304,12 +303,12 @@ Qed.
 
 Theorem scsv_refused c h :
   In tls_fallback_scsv (h_suites h) -> h_vers h < max_version c ->
-  exists code, negotiate c h = Alert code.
+  exists code, negotiate1 c h = Alert code.
 Proof.
   intros Hin Hlt.
   assert (Hs : scsv_fallback c h = true).
   { unfold scsv_fallback. apply andb_true_iff. split; [apply mem_In; exact Hin|apply Z.ltb_lt; exact Hlt]. }
-  unfold negotiate.
+  unfold negotiate1.
   destruct (mutual_version c (h_vers h)); [|eexists; reflexivity].
   destruct (check_version_grade z (grade_of c)); [|eexists; reflexivity].
   destruct (negb (mem compression_none (h_comp h))); [eexists; reflexivity|].
@@ -321,10 +320,10 @@ Theorem scsv_alert_86 c h v0 v :
   In tls_fallback_scsv (h_suites h) -> h_vers h < max_version c ->
   mutual_version c (h_vers h) = Some v0 -> check_version_grade v0 (grade_of c) = Some v ->
   In compression_none (h_comp h) ->
-  negotiate c h = Alert alert_inappropriate_fallback.
+  negotiate1 c h = Alert alert_inappropriate_fallback.
 Proof.
   intros Hin Hlt Hm Hg Hc.
-  unfold negotiate. rewrite Hm, Hg.
+  unfold negotiate1. rewrite Hm, Hg.
   apply mem_In in Hc. rewrite Hc. simpl.
   unfold scsv_fallback. apply mem_In in Hin. rewrite Hin. apply Z.ltb_lt in Hlt. rewrite Hlt. reflexivity.
 Qed.
@@ -340,44 +339,142 @@ Lemma max_version_spec c :
   (if c_max c =? 0 then version_tls12 else c_max c) = max_version c.
 Proof. unfold max_version. destruct (c_max c =? 0); reflexivity. Qed.
 
-Theorem prop_of_model i c h :
-  decode i = Some (c, h) -> min_version c <= max_version c ->
-  kf_C41 i = 0 -> prop_C41 i (run_C41 i) = true.
+
+
+(* the specification predicates hold of every accepted outcome of negotiate1 *)
+Lemma prop_core c h r v s a n p :
+  min_version c <= max_version c -> negotiate1 c h = Done r v s a n p ->
+  spec_alpn_ok c h a = true ->
+  spec_version_ok c h v && spec_suite_ok c h v s && spec_alpn_ok c h a &&
+  negb (spec_scsv_must_refuse c h) &&
+  ((negb n || h_npn h) && forallb (fun q => memb q (server_protos c)) p) = true.
 Proof.
-  intros Hd Hr Hk. unfold prop_C41, run_C41, kf_C41 in *. rewrite Hd in *.
-  destruct (negotiate c h) as [code|r v s a n p] eqn:Hn; simpl; [reflexivity|].
-  destruct (spec_alpn_ok c h a) eqn:Ha; [|discriminate].
+  intros Hr Hn Ha.
   pose proof (version_in_range c h r v s a n p Hr Hn) as [V1 [V2 [V3 [V4 V5]]]].
   pose proof (suite_mutual c h r v s a n p Hr Hn) as Hs.
   pose proof (negotiate_done_inv c h r v s a n p Hn) as [v0 [_ [_ [Hsc [_ [Hnn [Hp _]]]]]]].
   destruct (app_proto_spec c h) as [_ [Hnpn Hps]].
-  destruct r; simpl.
-  all: rewrite Hs; simpl.
-  all: assert (Hv : spec_version_ok c h v = true) by
-    (unfold spec_version_ok;
-     repeat (apply andb_true_iff; split); try (apply Z.leb_le; lia);
-     [ destruct (bytes_eqb (grade_of c) grade_a) eqn:E; simpl; [|reflexivity];
-       apply bytes_eqb_eq in E; specialize (V4 E);
-       assert (E' : (v <? version_tls10) = false) by (apply Z.ltb_ge; exact V4); rewrite E'; reflexivity
-     | destruct (bytes_eqb (grade_of c) grade_aplus) eqn:E; simpl; [|reflexivity];
-       apply bytes_eqb_eq in E; specialize (V5 E);
-       assert (E' : (v <? version_tls12) = false) by (apply Z.ltb_ge; exact V5); rewrite E'; reflexivity ]).
-  all: rewrite Hv; simpl.
-  all: unfold spec_scsv_must_refuse; rewrite max_version_spec;
-       unfold scsv_fallback in Hsc; rewrite Hsc; simpl.
-  all: change (all_some (map as_B (map VB p))) with (as_LB (vLB p)); rewrite as_LB_vLB.
-  all: subst p; rewrite (forallb_memb _ _ Hps).
-  all: subst n; destruct (snd (fst (app_proto c h))) eqn:En; simpl; [rewrite (Hnpn eq_refl); reflexivity|reflexivity].
+  assert (Hv : spec_version_ok c h v = true).
+  { unfold spec_version_ok.
+    repeat (apply andb_true_iff; split); try (apply Z.leb_le; lia).
+    - destruct (bytes_eqb (grade_of c) grade_a) eqn:E; simpl; [|reflexivity].
+      apply bytes_eqb_eq in E. specialize (V4 E).
+      assert (E' : (v <? version_tls10) = false) by (apply Z.ltb_ge; exact V4). rewrite E'. reflexivity.
+    - destruct (bytes_eqb (grade_of c) grade_aplus) eqn:E; simpl; [|reflexivity].
+      apply bytes_eqb_eq in E. specialize (V5 E).
+      assert (E' : (v <? version_tls12) = false) by (apply Z.ltb_ge; exact V5). rewrite E'. reflexivity. }
+  rewrite Hv, Hs, Ha. unfold spec_scsv_must_refuse. rewrite max_version_spec.
+  unfold scsv_fallback in Hsc. rewrite Hsc. simpl.
+  subst p. rewrite (forallb_memb _ _ Hps), andb_true_r.
+  subst n. destruct (snd (fst (app_proto c h))) eqn:En; simpl; [apply Hnpn; reflexivity|reflexivity].
+Qed.
+
+Lemma suite_mutual_full c h r v s a n p :
+  min_version c <= max_version c ->
+  negotiate1 c h = Done r v s a n p ->
+  mem s (h_suites h) = true /\ mem s (cfg_suites c) = true /\ spec_suite_ok c h v s = true.
+Proof.
+  intros Hr H. pose proof (suite_mutual c h r v s a n p Hr H) as Hs.
+  split; [|split]; [| |exact Hs]; unfold spec_suite_ok in Hs;
+    apply andb_true_iff in Hs; destruct Hs as [Hs _]; apply andb_true_iff in Hs; tauto.
+Qed.
+
+(* ---------- lifting to negotiate = negotiate1 on the per-connection configuration ---------- *)
+Theorem prop_of_model i : wf_C41 i = true -> kf_C41 i = 0 -> prop_C41 i (run_C41 i) = true.
+Proof.
+  unfold wf_C41, prop_C41, run_C41, kf_C41.
+  destruct (decode i) as [[c h]|]; [|discriminate]. intros Hr Hk. apply Z.leb_le in Hr.
+  cbv zeta. unfold negotiate in *.
+  destruct (negotiate1 (eff c h) h) as [code|r v s a n p] eqn:Hn; [reflexivity|].
+  destruct (spec_alpn_ok (eff c h) h a) eqn:Ha; [|discriminate].
+  pose proof (prop_core (eff c h) h r v s a n p Hr Hn Ha) as Hc.
+  unfold enc_outcome.
+  change (all_some (map as_B (map VB p))) with (as_LB (vLB p)).
+  destruct r; destruct n; cbn [vbool VT VF]; rewrite as_LB_vLB; exact Hc.
+Qed.
+
+Theorem version_in_range_conn c h r v s a n p :
+  min_version c <= max_version c ->
+  negotiate c h = Done r v s a n p ->
+  min_version c <= v /\ v <= max_version c /\ v <= h_vers h /\
+  (grade_of (eff c h) = grade_a -> version_tls10 <= v) /\
+  (grade_of (eff c h) = grade_aplus -> version_tls12 <= v).
+Proof. exact (version_in_range (eff c h) h r v s a n p). Qed.
+
+Theorem suite_mutual_conn c h r v s a n p :
+  min_version c <= max_version c ->
+  negotiate c h = Done r v s a n p ->
+  mem s (h_suites h) = true /\ mem s (cfg_suites c) = true /\ spec_suite_ok (eff c h) h v s = true.
+Proof. exact (suite_mutual_full (eff c h) h r v s a n p). Qed.
+
+Theorem scsv_refused_conn c h :
+  In tls_fallback_scsv (h_suites h) -> h_vers h < max_version c ->
+  exists code, negotiate c h = Alert code.
+Proof. exact (scsv_refused (eff c h) h). Qed.
+
+Theorem scsv_alert_conn c h v0 v :
+  In tls_fallback_scsv (h_suites h) -> h_vers h < max_version c ->
+  mutual_version c (h_vers h) = Some v0 -> check_version_grade v0 (grade_of (eff c h)) = Some v ->
+  In compression_none (h_comp h) ->
+  negotiate c h = Alert alert_inappropriate_fallback.
+Proof. exact (scsv_alert_86 (eff c h) h v0 v). Qed.
+
+Theorem alpn_mutual_partial_conn c h r v s a n p :
+  negotiate c h = Done r v s a n p -> a <> [] ->
+  a = fst (fst (app_proto (eff c h) h)) ->
+  In a (h_alpn h) /\ In a (server_protos (eff c h)).
+Proof. exact (alpn_mutual_partial (eff c h) h r v s a n p). Qed.
+
+(* the grade policy (checkVersionGrade + checkCipherGrade), stated directly: which (version, RC4?)
+   combinations a completed handshake can have under each grade *)
+Theorem grade_policy c h r v s a n p fl :
+  min_version c <= max_version c ->
+  negotiate c h = Done r v s a n p -> suite_flags s = Some fl ->
+  let g := grade_of (eff c h) in
+  let rc4 := has fl fl_rc4 in
+  (g = grade_aplus -> version_tls12 <= v /\ rc4 = false) /\
+  (g = grade_a -> version_tls10 <= v /\ rc4 = false) /\
+  (g = grade_b -> (version_tls10 <= v -> rc4 = false) /\ (v < version_tls10 -> rc4 = true)) /\
+  (g = grade_c -> c_poodle c = true -> v = version_ssl30 -> rc4 = true).
+Proof.
+  intros Hr Hn Hf g rc4.
+  destruct (version_in_range_conn c h r v s a n p Hr Hn) as [_ [_ [_ [V4 V5]]]].
+  destruct (suite_mutual_conn c h r v s a n p Hr Hn) as [_ [_ Hs]].
+  unfold spec_suite_ok in Hs. rewrite Hf in Hs.
+  apply andb_true_iff in Hs. destruct Hs as [_ Hs].
+  repeat (apply andb_true_iff in Hs; destruct Hs as [Hs ?]).
+  match goal with H : spec_rc4_ok _ _ _ = true |- _ => rename H into Hrc end.
+  unfold spec_rc4_ok in Hrc. fold g in Hrc, V4, V5. fold rc4 in Hrc.
+  change (c_poodle (eff c h)) with (c_poodle c) in Hrc.
+  split; [|split; [|split]].
+  - intros Eg. split; [apply V5; exact Eg|]. rewrite Eg in Hrc.
+    replace (bytes_eqb grade_aplus grade_aplus) with true in Hrc by reflexivity.
+    simpl in Hrc. destruct rc4; [discriminate|reflexivity].
+  - intros Eg. split; [apply V4; exact Eg|]. rewrite Eg in Hrc.
+    replace (bytes_eqb grade_a grade_aplus || bytes_eqb grade_a grade_a) with true in Hrc by reflexivity.
+    destruct rc4; [discriminate|reflexivity].
+  - intros Eg. rewrite Eg in Hrc.
+    replace (bytes_eqb grade_b grade_aplus || bytes_eqb grade_b grade_a) with false in Hrc by reflexivity.
+    replace (bytes_eqb grade_b grade_b) with true in Hrc by reflexivity.
+    split; intros Hv.
+    + apply Z.leb_le in Hv. rewrite Hv in Hrc. destruct rc4; [discriminate|reflexivity].
+    + assert (E : (version_tls10 <=? v) = false) by (apply Z.leb_gt; exact Hv). rewrite E in Hrc. exact Hrc.
+  - intros Eg Hp Hv. rewrite Eg in Hrc.
+    replace (bytes_eqb grade_c grade_aplus || bytes_eqb grade_c grade_a) with false in Hrc by reflexivity.
+    replace (bytes_eqb grade_c grade_b) with false in Hrc by reflexivity.
+    replace (bytes_eqb grade_c grade_c) with true in Hrc by reflexivity.
+    rewrite Hp in Hrc. subst v. replace (version_ssl30 =? version_ssl30) with true in Hrc by reflexivity.
+    exact Hrc.
 Qed.
 
 (* ---------- witnesses ---------- *)
 Definition cfg_default (protos : list bytes) : config :=
   {| c_min := 0; c_max := 0; c_prefer_server := true; c_suites := None; c_priority := []; c_protos := protos;
      c_curves := []; c_poodle := false; c_tickets_disabled := false; c_client_auth := 0; c_ecdsa := false;
-     c_rule := None |}.
+     c_rule := None; c_rules := []; c_certs := []; c_cache := 0 |}.
 Definition hello_simple (vers : Z) (suites : list Z) (alpn : list bytes) (tk : ticket) : hello :=
   {| h_vers := vers; h_suites := suites; h_comp := [0]; h_curves := [23]; h_points := [0]; h_alpn := alpn;
-     h_npn := false; h_sid := []; h_ticket := tk |}.
+     h_npn := false; h_sni := []; h_sid := []; h_ticket := tk; h_cache := NoTicket |}.
 
 (* client offers only h2 and only an AES-CBC suite: the server answers "http/1.1" *)
 Lemma alpn_mutual_refuted_lemma :
@@ -404,12 +501,21 @@ Lemma nonvacuous_scsv_resumption :
   negotiate (cfg_default []) (hello_simple 770 [47] [] (GoodTicket 770 47 0)) = Done true 770 47 [] false [].
 Proof. split; vm_compute; reflexivity. Qed.
 
-Lemma suite_mutual_full c h r v s a n p :
-  min_version c <= max_version c ->
-  negotiate c h = Done r v s a n p ->
-  mem s (h_suites h) = true /\ mem s (cfg_suites c) = true /\ spec_suite_ok c h v s = true.
-Proof.
-  intros Hr H. pose proof (suite_mutual c h r v s a n p Hr H) as Hs.
-  split; [|split]; [| |exact Hs]; unfold spec_suite_ok in Hs;
-    apply andb_true_iff in Hs; destruct Hs as [Hs _]; apply andb_true_iff in Hs; tauto.
-Qed.
+
+
+(* corpus/C41/witness.case: sni-rule-grade-b-ssl3-rc4-only and sni-wildcard-ecdsa-cert *)
+Definition corpus_cfg (rules certs : val) : val :=
+  VL [VZ 0; VZ 0; VZ 1; VL []; VL []; VL []; VL []; VZ 0; VZ 0; VZ 0; VZ 0; VL []; rules; certs; VZ 0].
+Definition corpus_sni_grade_b : val :=
+  VL [corpus_cfg (VL [VL [VB [97; 46; 99; 111; 109]; VL [VB [66]; VL []; VZ 0; VZ 0]]]) (VL []);
+      VL [VZ 768; vLZ [47; 5]; VB [0]; vLZ [23]; VB [0]; VL []; VZ 0; VB [97; 46; 99; 111; 109]; VB [];
+          VL [VZ 0]; VL [VZ 0]]].
+Definition corpus_wildcard_cert : val :=
+  VL [corpus_cfg (VL []) (VL [VL [VB [42; 46; 97; 46; 99; 111; 109]; VZ 1]]);
+      VL [VZ 771; vLZ [47; 49195]; VB [0]; vLZ [23]; VB [0]; VL []; VZ 0;
+          VB [87; 87; 87; 46; 65; 46; 67; 79; 77; 46]; VB []; VL [VZ 0]; VL [VZ 0]]].
+Lemma corpus_cases_ok :
+  wf_C41 corpus_sni_grade_b = true /\ run_C41 corpus_sni_grade_b = VL [VZ 1; VZ 0; VZ 768; VZ 5; VB []; VZ 0; VL []] /\
+  wf_C41 corpus_wildcard_cert = true /\
+  run_C41 corpus_wildcard_cert = VL [VZ 1; VZ 0; VZ 771; VZ 49195; VB []; VZ 0; VL []].
+Proof. repeat split; vm_compute; reflexivity. Qed.
